@@ -68,8 +68,16 @@ def needleman_wunsch(s1, s2, window=None, max_dist=None,
     """
     if substitution is None:
         substitution = _default_substitution_fn
+    # The border cells hold the cost of leading gaps, which has to be the same gap cost
+    # as used by the substitution function (see make_substitution_fn).
+    gap = getattr(substitution, 'gap', 1)
+    if gap == 1:
+        border = _needleman_wunsch_border
+    else:
+        def border(ri, ci):
+            return gap * _needleman_wunsch_border(ri, ci)
     value, scores, paths = dp(s1, s2,
-                       fn=substitution, border=_needleman_wunsch_border,
+                       fn=substitution, border=border,
                        penalty=0, window=window, max_dist=max_dist,
                        max_step=max_step, max_length_diff=max_length_diff, psi=psi)
     return -value, -scores, paths
@@ -129,6 +137,7 @@ def make_substitution_fn(matrix, gap=1, opt='max'):
         else:
             return _default_substitution_fn(a, b)[0], gap
 
+    _unwrap.gap = gap
     return _unwrap
 
 
